@@ -37,6 +37,18 @@ ROUNDS["U"] = {
   "U09": ("memory management around the yescrypt region and crypt_ra: lib/alg-yescrypt-platform.c (alloc_region, free_region, init_region), the local/shared handling in yescrypt_kdf and yescrypt_init_local/free_local, crypt_yescrypt_rn / crypt_gost_yescrypt_rn / crypt_scrypt_rn cleanup order, crypt_ra growth -- prefer defects that need an allocation or mapping failure, a second call on the same object, or a particular size", ["C15", "C14", "C09", "C05"]),
   "U10": ("anything in lib/ of your choice that the earlier changes did not touch, preferring defects that arise from the interplay of two functions (a caller relying on a post-condition of a helper that you weaken slightly, or a helper relying on a pre-condition that you stop establishing)", ["C01", "C02", "C03", "C05", "C06", "C07", "C09", "C10", "C11", "C12", "C13"]),
 }
+ROUNDS["V"] = {
+  "V01": ("sha1crypt and NT hashing: lib/crypt-pbkdf1-sha1.c (the pump string, HMAC iteration loop, output encoding order), lib/alg-hmac-sha1.c (key longer/shorter than the block, pad construction), lib/alg-sha1.c, lib/crypt-nthash.c (UCS-2 expansion of 8-bit bytes, hex output), lib/alg-md4.c", ["C01", "C02", "C03", "C06", "C16", "C09"]),
+  "V02": ("the SHA-crypt inner machinery in lib/crypt-sha256.c and lib/crypt-sha512.c: the P and S byte sequences (how many times the phrase / salt are fed, the 16+first-byte rule for S), the per-round recombination (i%2, i%3, i%7), copying of 32/64-byte blocks for phrases longer than the digest, the final byte permutation", ["C01", "C02", "C03", "C06"]),
+  "V03": ("traditional DES and bigcrypt in lib/crypt-des.c: how the key bytes are taken from the phrase (7-bit shift, zero padding), bigcrypt's segmentation into 8-byte pieces, the salt of each later segment taken from the previous segment's output, the maximum of 16 segments, the forwarding between bigcrypt and descrypt, des_gen_hash", ["C01", "C02", "C03", "C06", "C19"]),
+  "V04": ("classic scrypt: lib/crypt-scrypt.c (encoding/decoding of N, r, p; verify_salt; how the hash is assembled), the non-pwxform path of lib/alg-yescrypt-opt.c (salsa20, blockmix_salsa8, smix1/smix2 when flags == 0, the p loop), and PBKDF2 at both ends", ["C02", "C03", "C05", "C06"]),
+  "V05": ("the compatibility and glue layer: lib/crypt-port.h (symver/strong_alias macros, MIN/ARG_UNUSED helpers, static_assert checks), lib/crypt.c compat wrappers (xcrypt, xcrypt_r, xcrypt_gensalt, xcrypt_gensalt_r, crypt_gensalt_r, fcrypt), lib/crypt-static.c, lib/crypt-gensalt-static.c -- defects that only a caller of one particular entry point or symbol version sees", ["C20", "C07", "C10"]),
+  "V06": ("errno discipline across lib/: every function reachable from the public API that sets, tests, saves or restores errno (strtoul-based parsers, the hashing methods' error exits, gensalt functions, yescrypt wrappers, get_random_bytes callers) -- defects where the reported errno or the success/failure decision depends on errno's value on entry, or where a failure leaves a wrong or stale errno", ["C05", "C07", "C13", "C10"]),
+  "V07": ("integer widths and signedness anywhere in lib/: conversions between int, unsigned, size_t, uint32_t, uint64_t, unsigned long and unsigned char for lengths, counts, sizes, round numbers and character values (sign extension of char, truncation, wrap-around, comparison of signed with unsigned, shifts by the width) -- pick two different places", ["C02", "C03", "C04", "C05", "C11", "C13"]),
+  "V08": ("sibling implementations that must stay in step: sha256crypt vs sha512crypt, descrypt vs bigcrypt vs bsdicrypt, yescrypt vs gost-yescrypt vs scrypt wrappers, the three gensalt entry points, crypt vs crypt_r vs crypt_rn vs crypt_ra, HMAC-SHA1 vs HMAC-SHA256 vs GOST HMAC -- introduce a defect in ONE sibling of a family so that it silently diverges from the others", ["C02", "C05", "C07", "C09", "C10", "C16"]),
+  "V09": ("the setting parsers of the hashing methods (the part of each crypt_*_rn that reads the setting string): which characters end the salt, what happens with a trailing '$' or a full hash passed as setting, maximum and minimum salt lengths, optional fields, where the result copies the setting from -- defects visible only for unusual but valid spellings of a setting, or for a stored hash used as the setting", ["C01", "C02", "C03", "C05", "C06"]),
+  "V10": ("anything in lib/ or build-aux/scripts of your choice that the earlier changes did not touch; prefer a defect whose effect appears only in the SECOND or later call of a sequence, or only for one position of a loop (first, last, or a wrap-around), or only in one build configuration", ["C01", "C02", "C03", "C05", "C07", "C09", "C14", "C15", "C17", "C19"]),
+}
 BASE = '''You are helping evaluate a verification framework by producing *seeded defects* ("mutations") for the C library libxcrypt (crypt/crypt_r/crypt_rn/crypt_ra/crypt_gensalt* password hashing API).
 
 Your private scratch copy of the repository is the directory __DIR__ (a full git clone with the autotools build already configured and built in-tree: `make -j8` rebuilds, `make -j8 check` runs the 47-test suite in about 80 seconds; one test, getrandom-fallbacks, is normally SKIPped). Work ONLY inside __DIR__ (and files you create under __DIR__/OUT). Do NOT touch /repo or /verif, and do not read anything under /verif.
